@@ -192,6 +192,8 @@ fn child_main(args: &[String]) -> i32 {
     Some("c05") => c05::child(&args[1..], &input),
     // C12: a batch of model-loading cases that may abort the process
     Some("c12") => c12::child(args, &input),
+    // C01: the recursive cases of family `crossargs` (a wrong argument value can make a recursion endless)
+    Some("c01") => c01::crossargs::child(&args[1..], &input),
     // C17: one model text; prints whether it builds (`ok`), fails to build (`err`) or panics (`panic`)
     Some("c17-build") => c17::build_child(&input),
     _ => {
